@@ -57,9 +57,9 @@ theorem nextAfter_le {scopes : List Nat} {c pre : Chain} {st : State} (hp : PInv
 
 /-- What the invariant and the look-ahead hypothesis give for the next block: the hypotheses of `filterBlock_spec`. -/
 theorem block_ready {W : Nat} {scopes : List Nat} {invalid : BranchId → List Nat} {c : Chain}
-    (hwf : ChainWF scopes invalid c) (hla : LookAhead W scopes c) {p q : Chain} {h : Nat} {blk : Block} {st : State}
-    (e : c = p ++ (h, blk) :: q) (hp : PInv scopes c p st) (hm : MInv W scopes invalid c p st)
-    (hx : Exp W scopes invalid st) :
+    (hwf : ChainWF scopes invalid c) {n : Nat} (hla : LookAheadFrom W scopes n c) {p q : Chain} {h : Nat} {blk : Block}
+    {st : State} (e : c = p ++ (h, blk) :: q) (hn : n ≤ p.length) (hp : PInv scopes c p st)
+    (hm : MInv W scopes invalid c p st) (hx : Exp W scopes invalid st) :
     (∀ tx ∈ blk, ∀ o ∈ tx.outs, ∀ k, o.key = some k → watchesKey st k = scopes.contains k.scope) ∧
     (∀ op ∈ wops scopes blk, op ∈ wops scopes (allTxs c)) ∧
     (∀ a tx b, blk = a ++ tx :: b → ∀ op ∈ tx.ins, op ∈ wops scopes (allTxs c) →
@@ -75,7 +75,7 @@ theorem block_ready {W : Nat} {scopes : List Nat} {invalid : BranchId → List N
       have hkb : k ∈ paidKeys blk := by
         simp only [paidKeys, List.mem_flatMap, List.mem_filterMap]
         exact ⟨tx, htx, o, ho, hk⟩
-      have h1 := hla p h blk q e k hkb hc
+      have h1 := hla p h blk q e hn k hkb hc
       have h2 := nextAfter_le hp (k.scope, k.internal) hc
       obtain ⟨_, _, hnu⟩ := hm.branch (k.scope, k.internal) hc
       have hv := hwf.valid k (by rw [eT, paidKeys_append, paidKeys_append]; simp [hkb]) hc
@@ -183,13 +183,13 @@ theorem skip_block {W : Nat} {scopes : List Nat} {invalid : BranchId → List Na
 /-- The block with the first hit: `extendFoundAddresses`, the watched outpoints, `addRelevantTx` for the relevant
     transactions re-establish the invariant for the prefix extended by the block. -/
 theorem hit_block {W : Nat} {scopes : List Nat} {invalid : BranchId → List Nat} {c : Chain}
-    (hwf : ChainWF scopes invalid c) (hla : LookAhead W scopes c) {p q : Chain} {h : Nat} {blk : Block} {st : State}
-    (e : c = p ++ (h, blk) :: q) (hp : PInv scopes c p st) (hm : MInv W scopes invalid c p st)
-    (hx : Exp W scopes invalid st) :
+    (hwf : ChainWF scopes invalid c) {n : Nat} (hla : LookAheadFrom W scopes n c) {p q : Chain} {h : Nat} {blk : Block}
+    {st : State} (e : c = p ++ (h, blk) :: q) (hn : n ≤ p.length) (hp : PInv scopes c p st)
+    (hm : MInv W scopes invalid c p st) (hx : Exp W scopes invalid st) :
     PInv scopes c (p ++ [(h, blk)]) (applyFound st h (filterBlock st blk ⟨[], [], []⟩)) ∧
     MInv W scopes invalid c (p ++ [(h, blk)]) (applyFound st h (filterBlock st blk ⟨[], [], []⟩)) := by
   have eT : allTxs c = allTxs p ++ blk ++ allTxs q := by rw [e]; exact allTxs_split p h blk q
-  obtain ⟨b1, b2, b3⟩ := block_ready hwf hla e hp hm hx
+  obtain ⟨b1, b2, b3⟩ := block_ready hwf hla e hn hp hm hx
   obtain ⟨f1, _, f3, f4⟩ := filterBlock_spec st scopes (wops scopes (allTxs c)) hm.watched_sub blk ⟨[], [], []⟩
     b1 (fun _ h => by cases h) b2 b3
   generalize filterBlock st blk ⟨[], [], []⟩ = f at f1 f3 f4
@@ -254,8 +254,9 @@ theorem hit_block {W : Nat} {scopes : List Nat} {invalid : BranchId → List Nat
 /-! ## PART 10 — `FilterBlocks` over a batch, `recoverScopedAddresses` -/
 
 theorem filterBlocks_spec {W : Nat} {scopes : List Nat} {invalid : BranchId → List Nat} {c : Chain}
-    (hwf : ChainWF scopes invalid c) (hla : LookAhead W scopes c) (st : State) (hx : Exp W scopes invalid st) :
-    ∀ (batch p q : Chain) (i0 : Nat), c = p ++ batch ++ q →
+    (hwf : ChainWF scopes invalid c) {n : Nat} (hla : LookAheadFrom W scopes n c) (st : State)
+    (hx : Exp W scopes invalid st) :
+    ∀ (batch p q : Chain) (i0 : Nat), c = p ++ batch ++ q → n ≤ p.length →
     PInv scopes c p st → MInv W scopes invalid c p st →
     (filterBlocks st batch i0 = none →
       PInv scopes c (p ++ batch) st ∧ MInv W scopes invalid c (p ++ batch) st) ∧
@@ -264,14 +265,14 @@ theorem filterBlocks_spec {W : Nat} {scopes : List Nat} {invalid : BranchId → 
   intro batch
   induction batch with
   | nil =>
-    intro p q i0 _ hp hm
+    intro p q i0 _ _ hp hm
     simp only [filterBlocks, List.append_nil]
     exact ⟨fun _ => ⟨hp, hm⟩, fun _ _ _ h => by cases h⟩
   | cons hb rest ih =>
     obtain ⟨h, blk⟩ := hb
-    intro p q i0 e hp hm
+    intro p q i0 e hn hp hm
     have e1 : c = p ++ (h, blk) :: (rest ++ q) := by rw [e]; simp
-    obtain ⟨b1, b2, b3⟩ := block_ready hwf hla e1 hp hm hx
+    obtain ⟨b1, b2, b3⟩ := block_ready hwf hla e1 hn hp hm hx
     obtain ⟨f1, _, _, _⟩ := filterBlock_spec st scopes (wops scopes (allTxs c)) hm.watched_sub blk ⟨[], [], []⟩
       b1 (fun _ h => by cases h) b2 b3
     simp only [List.nil_append] at f1
@@ -284,7 +285,7 @@ theorem filterBlocks_spec {W : Nat} {scopes : List Nat} {invalid : BranchId → 
         exact eq_false_of_ne_true (hemp tx htx)
       obtain ⟨hp', hm'⟩ := skip_block e1 hp hm hu
       have e2 : c = (p ++ [(h, blk)]) ++ rest ++ q := by rw [e]; simp
-      obtain ⟨q1, q2⟩ := ih (p ++ [(h, blk)]) q (i0 + 1) e2 hp' hm'
+      obtain ⟨q1, q2⟩ := ih (p ++ [(h, blk)]) q (i0 + 1) e2 (by simp; omega) hp' hm'
       have ea : p ++ (h, blk) :: rest = (p ++ [(h, blk)]) ++ rest := by simp
       constructor
       · intro hn; rw [ea]; exact q1 hn
@@ -331,16 +332,16 @@ theorem expState_inv {W : Nat} {scopes : List Nat} {invalid : BranchId → List 
 
 /-- `recoverScopedAddresses` over one batch. -/
 theorem recoverScoped_spec {W : Nat} {scopes : List Nat} {invalid : BranchId → List Nat} {c : Chain}
-    (hwf : ChainWF scopes invalid c) (hla : LookAhead W scopes c) :
-    ∀ (fuel : Nat) (batch p q : Chain) (st : State), c = p ++ batch ++ q → batch.length < fuel →
+    (hwf : ChainWF scopes invalid c) {n : Nat} (hla : LookAheadFrom W scopes n c) :
+    ∀ (fuel : Nat) (batch p q : Chain) (st : State), c = p ++ batch ++ q → n ≤ p.length → batch.length < fuel →
     PInv scopes c p st → MInv W scopes invalid c p st →
     PInv scopes c (p ++ batch) (recoverScoped invalid fuel st batch) ∧
     MInv W scopes invalid c (p ++ batch) (recoverScoped invalid fuel st batch) := by
   intro fuel
   induction fuel with
-  | zero => intro batch p q st _ hl; omega
+  | zero => intro batch p q st _ _ hl; omega
   | succ fuel ih =>
-    intro batch p q st e hl hp hm
+    intro batch p q st e hn hl hp hm
     by_cases hbe : batch.isEmpty = true
     · rw [recoverScoped, if_pos hbe]
       rw [List.isEmpty_iff] at hbe
@@ -348,7 +349,7 @@ theorem recoverScoped_spec {W : Nat} {scopes : List Nat} {invalid : BranchId →
       simpa using ⟨hp, hm⟩
     · rw [recoverScoped_succ invalid fuel st batch hbe]
       obtain ⟨hp1, hm1, hx1⟩ := expState_inv (invalid := invalid) hp hm
-      obtain ⟨q1, q2⟩ := filterBlocks_spec hwf hla (expState invalid st) hx1 batch p q 0 e hp1 hm1
+      obtain ⟨q1, q2⟩ := filterBlocks_spec hwf hla (expState invalid st) hx1 batch p q 0 e hn hp1 hm1
       cases hfb : filterBlocks (expState invalid st) batch 0 with
       | none => exact q1 hfb
       | some r =>
@@ -356,7 +357,7 @@ theorem recoverScoped_spec {W : Nat} {scopes : List Nat} {invalid : BranchId →
         simp only []
         obtain ⟨a, blk, b, r1, r2, r3, r4, r5⟩ := q2 i h f hfb
         have e1 : c = (p ++ a) ++ (h, blk) :: (b ++ q) := by rw [e, r1]; simp
-        obtain ⟨hp2, hm2⟩ := hit_block hwf hla e1 r3 r4 hx1
+        obtain ⟨hp2, hm2⟩ := hit_block hwf hla e1 (by simp; omega) r3 r4 hx1
         rw [← r5] at hp2 hm2
         have hdrop : batch.drop (i + 1) = b := by
           rw [r1, r2, Nat.zero_add]
@@ -376,7 +377,7 @@ theorem recoverScoped_spec {W : Nat} {scopes : List Nat} {invalid : BranchId →
           have hlb : b.length < fuel := by
             have : batch.length = a.length + 1 + b.length := by rw [r1]; simp; omega
             omega
-          exact ih b (p ++ a ++ [(h, blk)]) q _ e2 hlb hp2 hm2
+          exact ih b (p ++ a ++ [(h, blk)]) q _ e2 (by simp; omega) hlb hp2 hm2
 
 /-! ## PART 11 — `Resurrect`, the batch loop -/
 
@@ -430,16 +431,16 @@ theorem resurrect_inv {W : Nat} {scopes : List Nat} {invalid : BranchId → List
 
 /-- `Wallet.recovery`: any batch size, any resume points. -/
 theorem recoverChain_spec {W : Nat} {scopes : List Nat} {invalid : BranchId → List Nat} {c : Chain}
-    (hwf : ChainWF scopes invalid c) (hla : LookAhead W scopes c) (batchSize : Nat) (cuts : Nat → Bool) :
-    ∀ (fuel : Nat) (blocks p : Chain) (st : State) (n : Nat), c = p ++ blocks → blocks.length < fuel →
+    (hwf : ChainWF scopes invalid c) {m : Nat} (hla : LookAheadFrom W scopes m c) (batchSize : Nat) (cuts : Nat → Bool) :
+    ∀ (fuel : Nat) (blocks p : Chain) (st : State) (n : Nat), c = p ++ blocks → m ≤ p.length → blocks.length < fuel →
     PInv scopes c p st → MInv W scopes invalid c p st →
     PInv scopes c c (recoverChain invalid batchSize fuel st blocks cuts n) ∧
     MInv W scopes invalid c c (recoverChain invalid batchSize fuel st blocks cuts n) := by
   intro fuel
   induction fuel with
-  | zero => intro blocks p st n _ hl; omega
+  | zero => intro blocks p st n _ _ hl; omega
   | succ fuel ih =>
-    intro blocks p st n e hl hp hm
+    intro blocks p st n e hmp hl hp hm
     rw [recoverChain]
     by_cases hbe : blocks.isEmpty = true
     · rw [if_pos hbe]
@@ -455,7 +456,7 @@ theorem recoverChain_spec {W : Nat} {scopes : List Nat} {invalid : BranchId → 
       have e1 : c = p ++ blocks.take (max batchSize 1) ++ blocks.drop (max batchSize 1) := by
         rw [List.append_assoc, List.take_append_drop]; exact e
       obtain ⟨hp1, hm1⟩ := recoverScoped_spec hwf hla ((blocks.take (max batchSize 1)).length + 1)
-        (blocks.take (max batchSize 1)) p (blocks.drop (max batchSize 1)) st e1 (Nat.lt_succ_self _) hp hm
+        (blocks.take (max batchSize 1)) p (blocks.drop (max batchSize 1)) st e1 hmp (Nat.lt_succ_self _) hp hm
       have e2 : c = (p ++ blocks.take (max batchSize 1)) ++ blocks.drop (max batchSize 1) := e1
       have hl2 : (blocks.drop (max batchSize 1)).length < fuel := by
         rw [List.length_drop]; omega
@@ -468,7 +469,7 @@ theorem recoverChain_spec {W : Nat} {scopes : List Nat} {invalid : BranchId → 
         cases cuts n
         · exact ⟨hp1, hm1⟩
         · exact resurrect_inv e2 hp1 hm1.window_eq
-      exact ih _ _ _ (n + 1) e2 hl2 hstep.1 hstep.2
+      exact ih _ _ _ (n + 1) e2 (by simp; omega) hl2 hstep.1 hstep.2
 
 theorem init_inv (W : Nat) (scopes : List Nat) (c : Chain) : PInv scopes c [] (State.init W scopes) := by
   refine ⟨rfl, ?_, rfl, ?_, ?_⟩
@@ -482,7 +483,7 @@ theorem recover_inv {W : Nat} {scopes : List Nat} {invalid : BranchId → List N
     PInv scopes c c (recover invalid W batchSize scopes c cuts) ∧
     MInv W scopes invalid c c (recover invalid W batchSize scopes c cuts) := by
   obtain ⟨hp, hm⟩ := resurrect_inv (invalid := invalid) (c := c) (p := []) (q := c) rfl (init_inv W scopes c) rfl
-  exact recoverChain_spec hwf hla batchSize cuts (c.length + 1) c [] _ 0 rfl (Nat.lt_succ_self _) hp hm
+  exact recoverChain_spec hwf hla.from0 batchSize cuts (c.length + 1) c [] _ 0 rfl (Nat.zero_le _) (Nat.lt_succ_self _) hp hm
 
 /-! ## PART 12 — balance -/
 
@@ -543,6 +544,10 @@ def checkWF (scopes : List Nat) (invalid : BranchId → List Nat) (c : Chain) : 
 
 def checkLA (W : Nat) (scopes : List Nat) (c : Chain) : Bool :=
   allSplits (fun pre hb _ => (paidKeys hb.2).all (fun k =>
+      !scopes.contains k.scope || decide (k.index < nextAfter (allTxs pre) (k.scope, k.internal) + W))) [] c
+
+def checkLAFrom (W : Nat) (scopes : List Nat) (n : Nat) (c : Chain) : Bool :=
+  allSplits (fun pre hb _ => decide (pre.length < n) || (paidKeys hb.2).all (fun k =>
       !scopes.contains k.scope || decide (k.index < nextAfter (allTxs pre) (k.scope, k.internal) + W))) [] c
 
 theorem not_mem_of_contains_false {α : Type} [BEq α] [LawfulBEq α] {l : List α} {a : α}
@@ -612,5 +617,16 @@ theorem pinv_extend {scopes : List Nat} {invalid : BranchId → List Nat} {p res
 theorem pinv_window {scopes : List Nat} {c p : Chain} {st : State} (W : Nat) (hp : PInv scopes c p st) :
     PInv scopes c p { st with window := W } :=
   ⟨hp.scopes_eq, hp.paid, hp.credits, hp.txs_rec, hp.txs_ids⟩
+
+theorem checkLAFrom_sound (W : Nat) (scopes : List Nat) (n : Nat) (c : Chain) (h : checkLAFrom W scopes n c = true) :
+    LookAheadFrom W scopes n c := by
+  intro pre hh blk post e hn k hk hs
+  have := allSplits_sound _ c [] h pre (hh, blk) post e
+  simp only [List.nil_append, List.all_eq_true, Bool.or_eq_true, Bool.not_eq_true', decide_eq_true_eq] at this
+  rcases this with h' | h'
+  · omega
+  · rcases h' k hk with h'' | h''
+    · rw [hs] at h''; cases h''
+    · exact h''
 
 end Recovery
